@@ -6,14 +6,14 @@ from vfw import client, gen, models
 LEVEL = "exploration"
 SHARDS = {"quick": 4, "thorough": 16}
 ANCHORS = [("qartod.py", "attenuated_signal_test")]
-RULE = ("series of 1..10 points (..24 thorough) on regular and irregular whole-second axes; test_period absent or equal "
+RULE = ("series of 1..10 points (..24 thorough) on regular, regular-with-outages and irregular whole-second axes, given as ndarray / list / masked array over finite values; test_period absent or equal "
         "to a difference of two sample times (so the window's open left edge falls exactly on a sample) or that +-1 s; "
         "min_obs in {None,1,2,3,n+1}, min_period (regular axes only) incl. non-multiples of the step; thresholds taken "
         "from the spreads actually present x {0.5, 1, 1.5} plus 0, with fail above and below suspect; missing values "
         "inside windows; both check types; unknown check types.  distinct = (check type, windowed?, min setting, axis "
         "kind, missing class, length class, set of flags); trivial = all GOOD.")
 ASSUMPTIONS = ["spreads within 1e-9 (relative) of a threshold admit both neighbouring flags (the property's quantifier)",
-               "min_period is exercised on regular axes with >= 2 points only (sampling step defined)",
+               "min_period is exercised on regular axes (optionally with outages on fewer than half the steps) with >= 2 points only, where the sampling step is unambiguous",
                "for check_type='range' a window holding a missing value may report UNKNOWN (spread undefined) or the flag of the present values"]
 EXHAUSTIVE_ALL = False
 
@@ -48,6 +48,16 @@ def run(ctx) -> None:
         regular = rng.random() < 0.5
         D = rng.choice([1, 60, 900])
         t = gen.regular(n, D) if regular else gen.irregular(rng, n, steps=(1, 2, 3, 60, 61, 900, 3600))
+        gappy = False
+        if regular and n >= 4 and rng.random() < 0.4:
+            # regularly sampled with a few outages: the sampling step is still D (fewer than half the steps are gaps)
+            gappy = True
+            gaps = set(rng.sample(range(1, n), max(1, (n - 1) // 3)))
+            t, cur = [], gen.T0
+            for k in range(n):
+                if k:
+                    cur += D * (rng.choice([2, 5, 20]) if k in gaps else 1)
+                t.append(cur)
         x = gen.series(rng, n, pmiss=rng.choice([0, 0.15, 0.4]))
         kind = rng.choice(["std", "range"])
         windowed = rng.random() < 0.7 and n >= 1
@@ -77,7 +87,16 @@ def run(ctx) -> None:
         if rng.random() < 0.7 and ft > st:
             st, ft = ft, st
         carrier = rng.choice(CARRIERS)
-        kw = {"inp": gen.arr(x) if rng.random() < 0.8 else list(x), "tinp": gen.times(t, carrier),
+        r = rng.random()
+        if r < 0.65:
+            inp = gen.arr(x)
+        elif r < 0.8:
+            inp = list(x)
+        else:  # masked array hiding a finite value that would change the spread if it were read
+            import numpy as np
+            inp = np.ma.MaskedArray(np.array([rng.choice([50.0, -50.0, 0.0]) if v is None else v for v in x], dtype=float),
+                                    mask=[v is None for v in x])
+        kw = {"inp": inp, "tinp": gen.times(t, carrier),
               "suspect_threshold": st, "fail_threshold": ft, "check_type": kind}
         if period is not None:
             kw["test_period"] = period
@@ -94,7 +113,7 @@ def run(ctx) -> None:
         if period:
             ctx.count("attenuated.windowed_calls")
         fs = gen.flagset(o)
-        ctx.case(f"{kind}|{'win' if period else 'whole'}|{msetting}|{'reg' if regular else 'irr'}|m{gen.mclass(x)}|"
+        ctx.case(f"{kind}|{'win' if period else 'whole'}|{msetting}|{'gappy' if gappy else 'reg' if regular else 'irr'}|m{gen.mclass(x)}|"
                  f"n{gen.nclass(n)}|{'f>s' if ft > st else 'f<=s'}|{fs}", trivial=fs == "1",
                  sample={"x": x, "t": t, "suspect_threshold": st, "fail_threshold": ft, "test_period": period,
                          "min_obs": min_obs, "min_period": min_period, "check_type": kind, "observed": o.brief()})
